@@ -1,5 +1,6 @@
 //! C02 / C03 / C09 / C10 / C18 (greeting): connect and receive of both connection flavours over a
 //! scripted reader (a list of chunks, then EOF or a persistent error).
+use std::future::Future;
 use std::io::{self, Read};
 use std::pin::Pin;
 use std::task::{Context, Poll};
@@ -19,6 +20,8 @@ pub struct ChunkReader {
     pub fail_kind: io::ErrorKind,
     reads: usize,
     max_reads: usize,
+    /// async only: an interruption is a read that stays pending (the caller drops the receive future and starts a new one)
+    pub pending_mode: bool,
 }
 
 impl ChunkReader {
@@ -37,6 +40,7 @@ impl ChunkReader {
             reads: 0,
             // every read before the end makes progress, so this many reads mean a hang
             max_reads: total + n + 64,
+            pending_mode: false,
         }
     }
 
@@ -101,7 +105,12 @@ impl Read for ChunkReader {
 }
 
 impl AsyncRead for ChunkReader {
-    fn poll_read(mut self: Pin<&mut Self>, _cx: &mut Context<'_>, buf: &mut ReadBuf<'_>) -> Poll<io::Result<()>> {
+    fn poll_read(mut self: Pin<&mut Self>, cx: &mut Context<'_>, buf: &mut ReadBuf<'_>) -> Poll<io::Result<()>> {
+        if self.pending_mode && matches!(self.chunks.front(), Some(None)) {
+            self.chunks.pop_front();
+            cx.waker().wake_by_ref();
+            return Poll::Pending;
+        }
         let space = buf.remaining();
         match self.serve(space) {
             Ok(d) => {
@@ -334,6 +343,8 @@ pub fn run(toks: &[&str]) -> String {
     }
     let mut reader = ChunkReader::with_interruptions(chunks, fail);
     reader.fail_kind = fail_kind;
+    // "ax": the interrupted receive is a future dropped while it waits for the transport (what select! does), then a new receive
+    reader.pending_mode = via == Some('x');
     let transient = reader.transient.clone();
     let res = catch(move || {
         let mut out: Vec<String> = Vec::new();
@@ -386,6 +397,17 @@ pub fn run(toks: &[&str]) -> String {
                     let got = match via {
                         Some('c') if turn % 2 == 0 => as_receive(conn.command(ping()).await),
                         Some('l') if turn % 2 == 0 => as_receive(conn.command_list(ping_list()).await),
+                        Some('x') => loop {
+                            let mut fut = Box::pin(conn.receive());
+                            let polled = std::future::poll_fn(|cx| Poll::Ready(fut.as_mut().poll(cx))).await;
+                            match polled {
+                                Poll::Ready(r) => break r,
+                                Poll::Pending => {
+                                    drop(fut); // cancelled while suspended in the read
+                                    out.push("io".into()); // where the undecorated case shows the transient error
+                                }
+                            }
+                        },
                         _ => conn.receive().await,
                     };
                     let (s, more) = show_outcome(got);
